@@ -211,37 +211,49 @@ def sweep(fx, R):
         rec = fx.records.get(cls) or {}
         fields = [fl_['name'] for fl_ in rec.get('fields', []) if not fl_.get('static')
                   and not (fl_.get('t') or {}).get('s', '').replace('mutable ', '').startswith(('std::mutex', 'std::shared_mutex', 'std::recursive_mutex', 'std::condition_variable', 'std::shared_timed_mutex'))]
-        if len(cps) != 1 or not fields:
+        if not fields:
             continue
-        g = cps[0]
-        # members whose value on entry some function of the class (that this check read) uses
-        read = set()
-        for f in fns:
-            if f.get('cls') != cls or f.get('ctor'):
-                continue
-            for y in walk(f.get('body')):
-                if isinstance(y, dict) and y.get('k') == 'Member' and y.get('field') and y.get('name') in fields:
-                    read.add(y['name'])
-        inst = '%s:copy-constructor' % cls
-        try:
-            sts = sym.Reader(fx).run(g)
-        except sym.Unsupported as u:
-            R.undecided('H3', inst, 'user-provided copy constructor not interpretable: %s' % u)
-            continue
-        pname = g['params'][0]['name'] if g.get('params') else 'other'
-        lost = []
-        for st in sts:
-            for fl_ in fields:
-                vals = [str(v) for k_, v in st.fields.items() if len(k_) >= 2 and k_[0] == 'this' and k_[1] == fl_]
-                copied = any(('%s.%s' % (pname, fl_)) in v_ or ('arg:%s' % pname) == v_ for v_ in vals)
-                if not copied and fl_ in read:
-                    lost.append((fl_, vals[:1]))
-        if lost:
-            R.violated('H3', inst, 'the user-provided copy constructor does not hand over %s (it is left as %s); functions this property reads use that member, so a copy of a configured / filled object does not '
-                       'answer like the original (a std::vector of estimators, a pool, a by-value capture all go through it; a user-declared copy constructor also replaces the move)' % (
-                           ', '.join(sorted({l_[0] for l_ in lost})), (lost[0][1] or ['default-initialised'])[0][:80]), fx.rel(g['loc']), 'E-STATE')
-        else:
-            R.holds('H3', inst, 'every member the read functions use (%s) is taken from the source object' % ', '.join(sorted(read)), fx.rel(g['loc']), 'E-STATE')
+        # a user-written copy ASSIGNMENT has the same duty as the copy constructor (a = b; a container's element assignment; a state kept by value and re-assigned each cycle)
+        cas = [g for g in fx.functions.values() if g.get('name') == 'operator=' and g.get('cls') == cls and g.get('body') is not None and len(g.get('params', [])) == 1
+               and ((g['params'][0].get('t') or {}).get('s', '').replace('const ', '').replace('class ', '').strip(' &') == cls)
+               and not ((g['params'][0].get('t') or {}).get('s', '').rstrip().endswith('&&'))]
+        for g in (cps if len(cps) == 1 else []) + cas[:1]:
+          kind = 'copy constructor' if g.get('copyctor') else 'copy assignment operator'
+          # members whose value on entry some function of the class (that this check read) uses
+          read = set()
+          for f in fns:
+              if f.get('cls') != cls or f.get('ctor'):
+                  continue
+              for y in walk(f.get('body')):
+                  if isinstance(y, dict) and y.get('k') == 'Member' and y.get('field') and y.get('name') in fields:
+                      read.add(y['name'])
+          inst = '%s:%s' % (cls, kind.replace(' ', '-').replace('-operator', ''))
+          try:
+              sts = sym.Reader(fx).run(g)
+          except sym.Unsupported as u:
+              R.undecided('H3', inst, 'user-provided %s not interpretable: %s' % (kind, u))
+              continue
+          pname = g['params'][0]['name'] if g.get('params') else 'other'
+          lost = []
+          for st in sts:
+              for fl_ in fields:
+                  vals = [str(v) for k_, v in st.fields.items() if len(k_) >= 2 and k_[0] == 'this' and k_[1] == fl_]
+                  copied = any(('%s.%s' % (pname, fl_)) in v_ or ('arg:%s' % pname) == v_ for v_ in vals)
+                  if not copied and fl_ in read:
+                      lost.append((fl_, vals[:1]))
+          if lost and any('Opaque' in (l_[1] or [''])[0] for l_ in lost):
+              R.undecided('H3', inst, 'the user-provided %s writes %s through a form the reader does not model (%s)' % (kind, ', '.join(sorted({l_[0] for l_ in lost})), (lost[0][1] or [''])[0][:80]))
+          elif lost and not g.get('copyctor'):
+              R.violated('H3', inst, 'the user-provided copy assignment operator does not hand over %s (the target keeps the value it had before the assignment); functions this property reads use that member, so after '
+                         '`a = b` the object a does not answer like b: whatever a was configured / filled with earlier still shows through (an element of a container being overwritten, a state object kept by value and '
+                         're-assigned each cycle, std::swap, sort and erase all go through it; a user-declared copy assignment also replaces the move assignment)' % ', '.join(sorted({l_[0] for l_ in lost})),
+                         fx.rel(g['loc']), 'E-STATE')
+          elif lost:
+              R.violated('H3', inst, 'the user-provided copy constructor does not hand over %s (it is left as %s); functions this property reads use that member, so a copy of a configured / filled object does not '
+                         'answer like the original (a std::vector of estimators, a pool, a by-value capture all go through it; a user-declared copy constructor also replaces the move)' % (
+                             ', '.join(sorted({l_[0] for l_ in lost})), (lost[0][1] or ['default-initialised'])[0][:80]), fx.rel(g['loc']), 'E-STATE')
+          else:
+              R.holds('H3', inst, 'every member the read functions use (%s) is taken from the source object' % ', '.join(sorted(read)), fx.rel(g['loc']), 'E-STATE')
     # ---- H8: a member derived from another member in the constructor and not refreshed when that member is re-assigned -------------------------
     for cls in classes:
         ctors = [g for g in fx.functions.values() if g.get('ctor') and g.get('cls') == cls and not g.get('copyctor')]
